@@ -157,6 +157,46 @@ def oracle(c):
     return fails
 
 
+def refit_oracle(c):
+    """whole fit calls on a USED instance: every index-aligned structure is rebuilt (adjacency square with one row per
+    category, zero diagonal) and equals what a fresh instance produces on the same call"""
+    fits = [o for o in c["ops"] if o["op"] == "fit"]
+    if len(fits) < 2:
+        return []
+    fails = []
+
+    def rep(sig, what):
+        return {"signature": f"TopoART/{sig}", "text": what, "replay": T.summary_t(c)}
+
+    def run(est, o):
+        X = np.array(o["X"], dtype=float)
+        keys, _ = B.row_keys(X)
+        vs = o.get("veto")
+        veto = B.Veto(est, vs["tbl"], vs["a"], vs["b"], keys) if vs else None
+        with contextlib.redirect_stdout(io.StringIO()), np.errstate(all="ignore"):
+            est.fit(X, match_reset_func=veto, match_tracking=o["mode"], epsilon=float(o["eps"]))
+    used = T.make_topo(c)
+    try:
+        for k, o in enumerate(fits):
+            run(used, o)
+            why = aligned(used) if len(used.W) else None
+            if why:
+                return [rep("refit-aligned", f"after fit number {k + 1} on the same instance: {why}")]
+            fresh = T.make_topo(c)
+            run(fresh, o)
+            same = (len(used.W) == len(fresh.W) and all(np.array_equal(a, b) for a, b in zip(used.W, fresh.W))
+                    and list(used.labels_) == list(fresh.labels_)
+                    and (not len(used.W) or np.array_equal(np.asarray(used.adjacency), np.asarray(fresh.adjacency)))
+                    and list(used.weight_sample_counter_) == list(fresh.weight_sample_counter_)
+                    and (not len(used.W) or list(np.asarray(used._permanent_mask)) == list(np.asarray(fresh._permanent_mask))))
+            if not same:
+                return [rep("refit-vs-fresh", f"fit number {k + 1} on a used instance differs from the same fit on a fresh instance "
+                            f"(adjacency {np.asarray(used.adjacency).tolist()} vs {np.asarray(fresh.adjacency).tolist()})")]
+    except Exception:
+        return fails
+    return fails
+
+
 def main():
     tier = sys.argv[1] if len(sys.argv) > 1 else "quick"
     seed = C.seed_from_env()
@@ -181,7 +221,7 @@ def main():
         if rounds >= 2 and h not in hashes:
             nontriv += 1
         hashes.add(h)
-        fails.extend(oracle(c))
+        fails.extend(oracle(c)); fails.extend(refit_oracle(c))
     codes, bad = flow.coq_corr("C14", "RunTopo", strs, shard=70, check_fn="tcheck", extra_imports="From ARTcorr Require Import RunBase RunSam.\n")
     for b in bad:
         v.notes.append("coq shard failed: " + b[-600:])
